@@ -17,12 +17,12 @@ import random
 from .common import Nat, Raw, coq
 
 
-def gen_spec(rng, ne16=False, max_blocks=4, first=None):
+def gen_spec(rng, ne16=False, max_blocks=4, first=None, dim=2):
     """derive a network.  ne16=True restricts kernels to {1,3} (NE16 cost model).  `first` forces the
     first block kind ('dw', 'addin', ...) so that rare producer->consumer pairs are always reached."""
     cin = rng.randint(2 if ne16 else 1, 4)    # a 1->1 conv. is depthwise for the library; NE16 models only 3x3 depthwise
     hw = rng.choice([4, 6, 8])
-    nodes = [{'k': 'in', 'c': cin, 'hw': hw}]
+    nodes = [{'k': 'in', 'c': cin, 'hw': hw}] if dim == 2 else [{'k': 'in', 'c': cin, 'hw': hw, 'dim': 1}]   # dim 1: Conv1d network
     st = {'cur': 0, 'c': cin, 'hw': hw}
 
     def push(nd):
@@ -34,9 +34,9 @@ def gen_spec(rng, ne16=False, max_blocks=4, first=None):
         ks = ks or rng.choice([1, 3, 3] if ne16 else [1, 3, 3, 5])
         return push({'k': 'conv', 'src': src, 'cin': st['c'], 'cout': cout, 'ks': ks, 'stride': stride, 'bias': rng.random() < 0.7})
 
-    def tail(c, dim=2, p_bn=0.4, p_relu=0.6):
+    def tail(c, bdim=None, p_bn=0.4, p_relu=0.6):
         if rng.random() < p_bn:
-            push({'k': 'bn', 'src': st['cur'], 'c': c, 'dim': dim})
+            push({'k': 'bn', 'src': st['cur'], 'c': c, 'dim': bdim or dim})
         if rng.random() < p_relu:
             push({'k': 'relu', 'src': st['cur'], 'fn': rng.random() < 0.5})
 
@@ -59,7 +59,7 @@ def gen_spec(rng, ne16=False, max_blocks=4, first=None):
             a = st['cur']
             conv(a, c, ks=rng.choice([1, 3]))
             if rng.random() < 0.3:
-                push({'k': 'bn', 'src': st['cur'], 'c': c, 'dim': 2})
+                push({'k': 'bn', 'src': st['cur'], 'c': c, 'dim': dim})
             bq = st['cur']
             push({'k': 'add', 'src': [a, bq] if rng.random() < 0.5 else [bq, a]})
             tail(c, p_bn=0.0)
@@ -97,14 +97,14 @@ def gen_spec(rng, ne16=False, max_blocks=4, first=None):
     elif r < 0.7 and st['hw'] >= 4 and st['hw'] % 2 == 0:
         push({'k': 'pool', 'src': st['cur'], 't': rng.choice(['max2', 'avg2'])})
         st['hw'] //= 2
-    mult = st['hw'] ** 2
+    mult = st['hw'] ** dim
     push({'k': 'flatten', 'src': st['cur'], 'mult': mult})
     feat = c * mult
     if rng.random() < 0.65:
         h = rng.randint(2, 6)
         push({'k': 'lin', 'src': st['cur'], 'cin': feat, 'cout': h, 'bias': rng.random() < 0.7})
         st['c'] = h
-        tail(h, dim=1)
+        tail(h, bdim=1)
         feat = h
     push({'k': 'lin', 'src': st['cur'], 'cin': feat, 'cout': rng.randint(2, 4), 'bias': rng.random() < 0.8})
     return nodes
